@@ -322,7 +322,51 @@ func (r *rawReq) mutate(rng *rand.Rand, which int) string {
 			return "content-type added"
 		}
 	case 10: // body mutations
-		switch rng.IntN(12) {
+		switch rng.IntN(15) {
+		case 12, 13, 14:
+			// one scalar value of the document swapped for a value of another JSON type
+			type span struct{ a, b int }
+			var spans []span
+			for i := 0; i < len(r.body); i++ {
+				c := r.body[i]
+				switch {
+				case c == '"':
+					j := i + 1
+					for j < len(r.body) && r.body[j] != '"' {
+						if r.body[j] == '\\' {
+							j++
+						}
+						j++
+					}
+					// a value (not a key) is not followed by ':'
+					k := j + 1
+					for k < len(r.body) && (r.body[k] == ' ' || r.body[k] == '\n') {
+						k++
+					}
+					if j < len(r.body) && (k >= len(r.body) || r.body[k] != ':') {
+						spans = append(spans, span{i, j + 1})
+					}
+					i = j
+				case (c >= '0' && c <= '9') || c == '-' || c == 't' || c == 'f' || c == 'n':
+					j := i
+					for j < len(r.body) && !strings.ContainsRune(",]} \n", rune(r.body[j])) {
+						j++
+					}
+					spans = append(spans, span{i, j})
+					i = j
+				}
+			}
+			if len(spans) == 0 {
+				r.body = []byte("7")
+				return "body replaced by a bare digit"
+			}
+			sp := spans[rng.IntN(len(spans))]
+			alt := []string{"7", "0", "42", "-1", "1.5", "1e400", "true", "null", "{}", "[]", `""`, `"x"`, `[null]`, `{"a":null}`}[rng.IntN(14)]
+			nb := append([]byte{}, r.body[:sp.a]...)
+			nb = append(nb, alt...)
+			nb = append(nb, r.body[sp.b:]...)
+			r.body = nb
+			return "one body value replaced by " + alt
 		case 10:
 			// every JSON string value replaced (unknown discriminator, unparsable times, ...)
 			out := make([]byte, 0, len(r.body))
